@@ -1618,3 +1618,14 @@ pub fn channel_closing_probe<CM: crate::ln::channelmanager::AChannelManager>(
 		force_close_avoidance_max_fee_satoshis,
 	)
 }
+
+/// C01: the inputs of the send-side admission check of a funded channel (see
+/// `FundedChannel::verif_send_check_inputs`): `(next value_to_self, pending HTLCs counted on the next
+/// remote commitment as (outbound, amount_msat), holding-cell adds, channel constraints, dust-exposure
+/// limiting feerate, dust-exposure limit, feerate_per_kw)`. Read-only.
+pub fn channel_send_check_inputs<CM: crate::ln::channelmanager::AChannelManager>(
+	node: &CM, counterparty_node_id: &bitcoin::secp256k1::PublicKey,
+	channel_id: &crate::ln::types::ChannelId,
+) -> Option<(u64, alloc::vec::Vec<(bool, u64)>, usize, [u64; 7], Option<u32>, u64, u32)> {
+	node.get_cm().verif_send_check_inputs(counterparty_node_id, channel_id)
+}
